@@ -107,8 +107,10 @@ def check(an, rep, tier):
                 isinstance(node.targets[0], _ast.Name) and \
                 node.targets[0].id == ref and \
                 isinstance(node.value, _ast.Call):
-            outer = (prog.dotted(node.value.func) or '').split('.')[-1]
-            inner = node.value.args[0] if node.value.args else None
+            from .. import roles as _roles
+            val_ = _roles.inline(fcs.node, node.value)
+            outer = (prog.dotted(val_.func) or '').split('.')[-1]
+            inner = val_.args[0] if val_.args else None
             iname = (prog.dotted(inner.func) or '').split('.')[-1] \
                 if isinstance(inner, _ast.Call) else (
                     'abs' if isinstance(inner, _ast.Call) else None)
